@@ -8,7 +8,6 @@ import (
 	"crypto"
 	"errors"
 	"io"
-	"strings"
 )
 
 // Hooks for the /verif harness, properties C25 and C26 (packet ciphers). Add-only; compiled only with -tags verif.
@@ -89,29 +88,20 @@ func (v *VerifCipher) WriteCipherPacket(seq uint32, rand io.Reader, payload []by
 
 func (v *VerifCipher) SeqNum() uint32 { return v.cs.seqNum }
 
-// VerifPacketErrClass maps a reader / writer error to a small enum:
-// eof (stream ends inside a packet), len (length / multiple / CBC padding-length checks), mac (MAC or
-// AEAD tag mismatch), pad (AEAD padding checks), large (writer refuses payload), other.
+// VerifPacketErrClass maps a reader / writer error to what its Go value or type tells (never its text):
+// "eof" for io.EOF / io.ErrUnexpectedEOF (the stream ends inside a packet, or the random source ran dry),
+// "cbc" for a cbcError (the CBC reader's verification errors, after which it drains the stream),
+// "err" for every other error (the package's remaining errors are untyped errors.New / fmt.Errorf values).
 func VerifPacketErrClass(err error) string {
-	if err == nil {
-		return ""
-	}
-	if err == io.EOF || err == io.ErrUnexpectedEOF {
-		return "eof"
-	}
-	s := err.Error()
 	switch {
-	case strings.Contains(s, "MAC failure"), strings.Contains(s, "message authentication failed"):
-		return "mac"
-	case strings.HasPrefix(s, "ssh: empty packet"), strings.HasPrefix(s, "ssh: illegal padding"), strings.HasPrefix(s, "ssh: padding"):
-		return "pad"
-	case s == "ssh: packet too large" && !isCBCError(err):
-		return "large"
-	case strings.Contains(s, "packet too large"), strings.Contains(s, "packet too small"),
-		strings.Contains(s, "invalid packet length"), strings.Contains(s, "max packet length exceeded"):
-		return "len"
+	case err == nil:
+		return ""
+	case err == io.EOF || err == io.ErrUnexpectedEOF:
+		return "eof"
+	case isCBCError(err):
+		return "cbc"
 	}
-	return "other"
+	return "err"
 }
 
 func isCBCError(err error) bool { _, ok := err.(cbcError); return ok }
@@ -121,4 +111,36 @@ func VerifGenerateKeyMaterial(n int, tag, k, h, sessionID []byte, hash crypto.Ha
 	out := make([]byte, n)
 	generateKeyMaterial(out, tag, &kexResult{K: k, H: h, SessionID: sessionID, Hash: hash})
 	return out
+}
+
+// VerifNewCipherShared is VerifNewCipher without defensive copies: the packetCipher constructors receive the
+// caller's key / iv / macKey slices themselves (what newPacketCipher does with its freshly derived buffers), so a
+// harness can observe which of them the cipher keeps and modifies.
+func VerifNewCipherShared(cipher, mac string, key, iv, macKey []byte, seq uint32) (*VerifCipher, error) {
+	var pc packetCipher
+	if cipher == "none" {
+		pc = &streamPacketCipher{cipher: noneCipher{}}
+	} else {
+		mode := cipherModes[cipher]
+		if mode == nil {
+			return nil, errors.New("verif: unknown cipher " + cipher)
+		}
+		if !aeadCiphers[cipher] && macModes[mac] == nil {
+			return nil, errors.New("verif: unknown mac " + mac)
+		}
+		var err error
+		pc, err = mode.create(key, iv, macKey, DirectionAlgorithms{Cipher: cipher, MAC: mac})
+		if err != nil {
+			return nil, err
+		}
+	}
+	return &VerifCipher{cs: &connectionState{packetCipher: pc, seqNum: seq, pendingKeyChange: make(chan packetCipher, 1)}}, nil
+}
+
+// WritePacketShared is connectionState.writePacket on the caller's own payload slice (no copy).
+func (v *VerifCipher) WritePacketShared(rand io.Reader, payload []byte) ([]byte, error) {
+	var buf bytes.Buffer
+	w := bufio.NewWriter(&buf)
+	err := v.cs.writePacket(w, rand, payload, false)
+	return buf.Bytes(), err
 }
